@@ -1,6 +1,6 @@
 (* C04 — hash chains held in arrays, at the level of total functions: the inductive meaning of a chain,
    linking at the tail, unlinking a node, and the well-formedness invariant of the whole index. *)
-From Verif Require Import Base.Common Model.C04.
+From Verif Require Import Base.Common Gen.Consts_default Model.C04.
 
 Definition upd {A} (f : Z -> A) (k : Z) (v : A) : Z -> A := fun x => if x =? k then v else f x.
 Lemma upd_same {A} (f : Z -> A) k v : upd f k v k = v.
@@ -86,6 +86,29 @@ Proof.
   - inversion H; subst. eapply IH. eassumption.
 Qed.
 
+(* ------------------------------------------------------------------ the constants *)
+(* what the theorems need of a configuration: at least one slot, a hash table of 2^HASH_BITS >= 1 buckets in which the empty id does not fall into
+   bucket 0 (FNV1_32_INIT mod 2^HASH_BITS; only the two statements about the zeroed segment use it), and the fuel fields being what their names say.
+   NOTHING relates MAX_USERS to PRE_ALLOCATED_USERS or to 2^HASH_BITS: the table may be smaller or larger than the cap on free records and than the
+   number of buckets. *)
+Definition consts_ok (K : consts) : Prop :=
+  0 < MAXU /\ 0 <= HASHBITS /\ cmsys.FNV1_32_INIT mod 2 ^ HASHBITS <> 0 /\
+  FUEL_MAXU = Z.to_nat MAXU /\ FUEL_LOADER = S (Z.to_nat MAXU).
+
+Section Cfg.
+Context {K : consts} (HK : consts_ok K).
+
+Lemma MAXU_pos : 0 < MAXU.
+Proof. exact (proj1 HK). Qed.
+Lemma HASHN_pos : 0 < HASHN.
+Proof. unfold HASHN. apply Z.pow_pos_nonneg; [reflexivity|exact (proj1 (proj2 HK))]. Qed.
+Lemma FUEL_MAXU_eq : FUEL_MAXU = Z.to_nat MAXU.
+Proof. exact (proj1 (proj2 (proj2 (proj2 HK)))). Qed.
+Lemma FUEL_LOADER_eq : FUEL_LOADER = S (Z.to_nat MAXU).
+Proof. exact (proj2 (proj2 (proj2 (proj2 HK)))). Qed.
+Lemma empty_hash_nonzero : cmsys.FNV1_32_INIT mod HASHN <> 0.
+Proof. exact (proj1 (proj2 (proj2 HK))). Qed.
+
 (* ------------------------------------------------------------------ the invariant *)
 Definition hash_ok (h : Z) : Prop := 0 <= h < HASHN.
 
@@ -114,7 +137,7 @@ Proof.
 Qed.
 
 Lemma uhash_ok id : hash_ok (uhash id).
-Proof. unfold hash_ok, uhash. apply Z.mod_pos_bound. reflexivity. Qed.
+Proof. unfold hash_ok, uhash. apply Z.mod_pos_bound. exact HASHN_pos. Qed.
 
 Lemma in_range_not_m1 x : in_range x = true -> x <> -1.
 Proof. unfold in_range. intros H E. subst. discriminate. Qed.
@@ -249,3 +272,4 @@ Proof.
   { apply range_len_bound; [constructor; assumption|]. intros x [<-|Hin]; auto. }
   cbn [length] in H. lia.
 Qed.
+End Cfg.
